@@ -1,7 +1,7 @@
 (*    decoder/readbuffer.go: ReadN over an arbitrary chunking reader refines "take n bytes of the stream".
    The buffer is modelled as the actual byte array with cur/last, copy = memmove, and
    io.ReadAtLeast as the loop it is; every slice expression is bounds-checked (Panic). *)
-From Coq Require Import NArith List Lia Arith Bool.
+From Coq Require Import NArith ZArith List Lia Arith Bool.
 Import ListNotations.
 
 From Fit Require Import gen.DecConst.
@@ -93,3 +93,41 @@ Fixpoint run_script (b : rbuf) (r : reader) (ns : list nat) : list (outcome (lis
   | [] => []
   | n :: ns' => let '(o, b', r') := read_n b r n in o :: match o with Ok _ => run_script b' r' ns' | _ => [] end
   end.
+
+(* --- a reused buffer (Decoder.Reset): the Go slice b.buf is a window of a backing array; Reset keeps the array when
+       cap(b.buf) - reservedbuf >= size and re-slices it to reservedbuf + size (a slice expression: bounds-checked against
+       the capacity), else allocates.  State: the window [buf] and the part of the array behind it. *)
+Definition rstate := (rbuf * list N)%type.
+Definition rb_cap (s : rstate) : nat := length (buf (fst s)) + length (snd s).
+Definition rb_reset (s : rstate) (size : nat) : outcome rstate :=
+  let arr := buf (fst s) ++ snd s in
+  let size := clamp_size size in
+  let oldsize := Z.sub (Z.of_nat (length arr)) (Z.of_nat RESERVED) in       (* Go int arithmetic: negative for a zero buffer *)
+  let arr' := if Z.ltb oldsize (Z.of_nat size) then repeat 0%N (RESERVED + size) else arr in
+  if length arr' <? RESERVED + size then Panic                                 (* b.buf[:reservedbuf+size] beyond the capacity *)
+  else Ok ({| buf := firstn (RESERVED + size) arr'; cur := 0; last := 0 |}, skipn (RESERVED + size) arr').
+Definition rb_zero : rstate := ({| buf := []; cur := 0; last := 0 |}, []).
+
+(* operations on a long-lived buffer: Reset(reader, size) / ReadN(n); the observation of a Reset is len(buf) *)
+Inductive rop := OReset (size : nat) (r : reader) | ORead (n : nat).
+Inductive robs := RLen (n : nat) | ROut (o : outcome (list N)) | RPanic.
+Fixpoint skip_reads (ops : list rop) : list rop :=
+  match ops with ORead _ :: ops' => skip_reads ops' | _ => ops end.
+(* after a failed ReadN the harness goes on with the next Reset (the decoder never reads on after an error) *)
+Fixpoint run_ops (fuel : nat) (s : rstate) (r : reader) (ops : list rop) : list robs :=
+  match fuel with O => [] | S fuel' =>
+  match ops with
+  | [] => []
+  | OReset size r' :: ops' =>
+    match rb_reset s size with
+    | Ok s' => RLen (length (buf (fst s'))) :: run_ops fuel' s' r' ops'
+    | _ => [RPanic]
+    end
+  | ORead n :: ops' =>
+    let '(o, b', r') := read_n (fst s) r n in
+    ROut o :: match o with
+              | Ok _ => run_ops fuel' (b', snd s) r' ops'
+              | Err _ => run_ops fuel' (b', snd s) r' (skip_reads ops')
+              | Panic => []
+              end
+  end end.
